@@ -285,7 +285,7 @@ class Presets(Suite):
 
 
 if __name__ == "__main__":
-    main("C19", [Presets(), Construct(), Mul(), Equiv()],
+    main("C19", [Presets(), Construct(), Mul(), Equiv()], gen_targets=['scheme'],
          level_note="theorems over all Python-shaped constructor arguments / all integer penalty tuples; float penalties are "
                     "represented on the 1/8000 grid (NaN, inf and non-dyadic values are outside the correspondence); "
                     "score homogeneity is theorem C19_kemeny_homogeneous over the Kemeny specification of C01",
